@@ -73,7 +73,49 @@ fn line_changes(patched_file: &PatchedFile) -> Vec<LineChange> {
 }
 
 /// Returns sorted byte ranges in `new` that represent changes from `old`.
+/// Lines longer than this many bytes are not compared character by character: the cost of the
+/// character diff grows with the line length times the number of differences, which takes
+/// minutes for a single regenerated line of a minified or generated file.
+const MAX_CHAR_DIFF_LINE_LEN: usize = 2048;
+
+/// Linear-time comparison for very long lines: everything between the common prefix and the
+/// common suffix of the two lines is one modified range.
+fn coarse_line_diff(old: &str, new: &str) -> Vec<Range<usize>> {
+    if old == new {
+        return Vec::new();
+    }
+    let prefix: usize = old
+        .chars()
+        .zip(new.chars())
+        .take_while(|(a, b)| a == b)
+        .map(|(_, b)| b.len_utf8())
+        .sum();
+    let suffix: usize = old[prefix..]
+        .chars()
+        .rev()
+        .zip(new[prefix..].chars().rev())
+        .take_while(|(a, b)| a == b)
+        .map(|(_, b)| b.len_utf8())
+        .sum();
+    let end = new.len() - suffix;
+    if prefix < end {
+        return vec![prefix..end];
+    }
+    // Only deletions: point at the character at the position of the deletion (the last one when
+    // the end of the line was deleted), like the character diff does.
+    let start = if prefix < new.len() {
+        prefix
+    } else {
+        new.char_indices().last().map_or(0, |(offset, _)| offset)
+    };
+    let len = new[start..].chars().next().map_or(1, char::len_utf8);
+    vec![start..start + len]
+}
+
 fn line_diff(old: &str, new: &str) -> Vec<Range<usize>> {
+    if old.len() > MAX_CHAR_DIFF_LINE_LEN || new.len() > MAX_CHAR_DIFF_LINE_LEN {
+        return coarse_line_diff(old, new);
+    }
     let mut result = Vec::new();
     let diff = similar::TextDiff::from_chars(old, new);
     // The diff works on characters while positions in the source code are byte offsets:
@@ -241,6 +283,22 @@ mod tests {
     /// Creates a whole line change (either added or deleted line).
     fn line_change(line: usize) -> LineChange {
         LineChange { line, ranges: None }
+    }
+
+    #[test]
+    fn very_long_lines_are_compared_by_common_prefix_and_suffix() {
+        let old = format!("let a = [{}];", "1, ".repeat(1000));
+        let new = format!("let b = [{}];", "2, ".repeat(1000));
+        let ranges = line_diff(&old, &new);
+        assert_eq!(ranges, vec![4..new.len() - 4]);
+        assert!(line_diff(&old, &old).is_empty());
+    }
+
+    #[test]
+    fn very_long_line_with_deleted_tail_marks_last_character() {
+        let new = "x".repeat(3000);
+        let old = format!("{new} // trailing");
+        assert_eq!(line_diff(&old, &new), vec![2999..3000]);
     }
 
     #[test]
